@@ -131,6 +131,26 @@ func c13Run(c c13Case) []mc.Finding {
 	default:
 		c13Outcome = "error-later"
 	}
+	if err != nil {
+		// the retry of the same target with the same answer: no panic, rejected again, no writes
+		w.DeliverAll()
+		w.Sim.ResetLog()
+		err2, p2, stack2 := w.syncKey(dkey(target))
+		if p2 != nil {
+			bad("panic-on-retry", "the retry of a sync whose answer was rejected (%v) panicked: %v\n%s", err, p2, stack2)
+			return f
+		}
+		if strings.Contains(err.Error(), "hook failed") {
+			if err2 == nil || !strings.Contains(err2.Error(), "hook failed") {
+				bad("rejection-not-repeated", "first sync rejected the answer (%v), the retry with the same answer did not (%v)", err, err2)
+			}
+			for _, r := range w.Sim.Log {
+				if r.Kind == kit.Leaf && r.Mutating() {
+					bad("writes-after-rejection", "retry after a rejected answer led to attachment write %s", r)
+				}
+			}
+		}
+	}
 	if c.Status != 200 {
 		if writes > 0 {
 			bad("writes-on-non-200", "HTTP %d but %d attachment writes", c.Status, writes)
